@@ -1,6 +1,37 @@
 //! Small utilities: deterministic PRNG, line output.
 use std::io::Write;
 
+// ---- counting allocator: live heap blocks whose alignment is at least a cache line (participant records, collector
+// globals); everything else goes straight to the system allocator
+pub static BIG_LIVE: std::sync::atomic::AtomicUsize = std::sync::atomic::AtomicUsize::new(0);
+pub static BIG_ALLOCS: std::sync::atomic::AtomicUsize = std::sync::atomic::AtomicUsize::new(0);
+pub struct CountingAlloc;
+unsafe impl std::alloc::GlobalAlloc for CountingAlloc {
+    unsafe fn alloc(&self, l: std::alloc::Layout) -> *mut u8 {
+        if l.align() >= 64 {
+            BIG_LIVE.fetch_add(1, std::sync::atomic::Ordering::SeqCst);
+            BIG_ALLOCS.fetch_add(1, std::sync::atomic::Ordering::SeqCst);
+        }
+        std::alloc::System.alloc(l)
+    }
+    unsafe fn dealloc(&self, p: *mut u8, l: std::alloc::Layout) {
+        if l.align() >= 64 {
+            BIG_LIVE.fetch_sub(1, std::sync::atomic::Ordering::SeqCst);
+        }
+        std::alloc::System.dealloc(p, l)
+    }
+    unsafe fn alloc_zeroed(&self, l: std::alloc::Layout) -> *mut u8 {
+        if l.align() >= 64 {
+            BIG_LIVE.fetch_add(1, std::sync::atomic::Ordering::SeqCst);
+            BIG_ALLOCS.fetch_add(1, std::sync::atomic::Ordering::SeqCst);
+        }
+        std::alloc::System.alloc_zeroed(l)
+    }
+    unsafe fn realloc(&self, p: *mut u8, l: std::alloc::Layout, n: usize) -> *mut u8 {
+        std::alloc::System.realloc(p, l, n)
+    }
+}
+
 #[derive(Clone)]
 pub struct Rng(pub u64);
 
